@@ -496,5 +496,118 @@ def uridict_tasks(root, timeout_ms=10000):
     return [URIDictTask(root, timeout_ms)]
 
 
+class TypesArgV:
+    """the deprecated `types` argument: an abstract mapping that is empty or not"""
+    def __init__(self, nonempty):
+        self.nonempty = nonempty
+
+
+def _run_validator_init(self, res):
+    """Validator(schema, types, resolver, format_checker): schema / format_checker / resolver are stored as given; without
+    a resolver one is built by RefResolver.from_schema(schema, id_of=<the class's id_of>); with a non-empty `types` exactly one
+    DeprecationWarning is issued and the INSTANCE gets TYPE_CHECKER = class checker.redefine_many(legacy checks of types) -
+    an attribute of the new object only: the class's checker is not assigned; with empty `types` no checker is assigned at all"""
+    for types_given in (False, True):
+        for resolver_given in (False, True):
+            repo = extract.Repo(self.root)
+            unit = repo.unit("validators:create.Validator.__init__")
+            res["function"], res["source_hash"] = unit.key, unit.source_hash()
+            ctx = Ctx(repo, contracts={}, config={})
+            dict_hooks(ctx)
+            base_builtin, base_method, base_getattr = ctx.config["builtin_hook"], ctx.config["method_hook"], ctx.config["getattr_hook"]
+            cls_checker = ClassObj("class_type_checker", {})
+            cls = ClassObj("ValidatorClass", {"TYPE_CHECKER": cls_checker})
+            me = ClassObj("validator", {"__class__": cls, "__fresh__": True})
+            schema, fc = Ident("schema"), Ident("format_checker")
+            resolver = Ident("given_resolver") if resolver_given else lift(None)
+            types = TypesArgV(SB(z3.Bool("types_nonempty")))
+            id_of = Ident("class_id_of")
+            events = []
+
+            class LegacyC(core.Contract):
+                key = "validators:_generate_legacy_type_checks"
+
+                def apply(self, I, s, a, k, fref):
+                    events.append(("legacy", a))
+                    return [(s, Overrides(z3.Const("legacy_checks", OvSort)))]
+            ctx.contracts[LegacyC.key] = LegacyC()
+
+            def builtin_hook(I, s, name, a, k, node):
+                if name == "warnings.warn":
+                    s2 = s.fork()
+                    cat_ = a[1] if len(a) > 1 else k.get("category")
+                    s2.ghost["warned"] = s2.ghost.get("warned", ()) + (getattr(cat_, "name", repr(cat_)),)
+                    return [(s2, lift(None))]
+                return base_builtin(I, s, name, a, k, node)
+
+            def getattr_hook(I, s, obj, attr):
+                if isinstance(obj, ClassObj) and obj.name == "class_type_checker":
+                    return [(s, BoundMethod(obj, attr))]
+                if isinstance(obj, ClassRef) and obj.name == "RefResolver":
+                    return [(s, BoundMethod(obj, attr))]
+                return base_getattr(I, s, obj, attr)
+
+            def method_hook(I, s, obj, name, a, k, node):
+                if isinstance(obj, ClassObj) and obj.name == "class_type_checker":
+                    if name == "redefine_many" and len(a) == 1 and isinstance(a[0], Overrides) and not k:
+                        # TypeChecker.redefine_many's contract (contracts/tasks_types.py): a new checker
+                        return [(s, ClassObj("derived_type_checker", {"from": a[0]}))]
+                    raise OutOfSubset("type checker method %s" % name)
+                if isinstance(obj, ClassRef) and obj.name == "RefResolver" and name == "from_schema":
+                    s2 = s.fork()
+                    s2.ghost["from_schema"] = s2.ghost.get("from_schema", ()) + ((tuple(a), dict(k)),)
+                    return [(s2, Ident("own_resolver"))]
+                return base_method(I, s, obj, name, a, k, node)
+
+            def truth_hook(I, s, v):
+                return v.nonempty.f if isinstance(v, TypesArgV) else None
+            ctx.config.update(builtin_hook=builtin_hook, getattr_hook=getattr_hook, method_hook=method_hook, truth_hook=truth_hook)
+            I = Interp(ctx)
+            st = State()
+            st.unit = unit
+            st.closure = {"id_of": id_of}
+            st.pc.append(types.nonempty.f if types_given else z3.Not(types.nonempty.f))
+            outs = I.run_unit(unit, st, [me, schema, types, resolver, fc], {})
+            res["paths"] += len(outs)
+            obls = list(ctx.obligations)
+            tag = "%s+%s" % ("types" if types_given else "no-types", "resolver" if resolver_given else "no-resolver")
+            for n, (s, ctl) in enumerate(outs):
+                nm = "%s/F/%s#%d" % (self.name, tag, n + 1)
+                if ctl[0] == "raise":
+                    obls.append(core.Obligation(nm + ".raise", "S", s.pc, False, note="the constructor raises %s" % ctl[1].cls))
+                    continue
+                at = s.ghost.get("attrs", {})
+
+                def is_(v, want):
+                    return isinstance(v, Ident) and v.t.eq(want.t)
+                obls.append(core.Obligation(nm + ".schema", "F", s.pc, z3.BoolVal(is_(at.get(("validator", "schema")), schema)), note="self.schema is the given schema"))
+                obls.append(core.Obligation(nm + ".format_checker", "F", s.pc, z3.BoolVal(is_(at.get(("validator", "format_checker")), fc)), note="self.format_checker is the given checker"))
+                fs = s.ghost.get("from_schema", ())
+                if resolver_given:
+                    ok = is_(at.get(("validator", "resolver")), resolver) and not fs
+                    obls.append(core.Obligation(nm + ".resolver", "F", s.pc, z3.BoolVal(bool(ok)), note="a given resolver is used as it is; none is built"))
+                else:
+                    r = at.get(("validator", "resolver"))
+                    ok = isinstance(r, Ident) and r.name == "own_resolver" and len(fs) == 1 and len(fs[0][0]) == 1 and is_(fs[0][0][0], schema) and \
+                        set(fs[0][1]) == {"id_of"} and is_(fs[0][1]["id_of"], id_of)
+                    obls.append(core.Obligation(nm + ".resolver", "F", s.pc, z3.BoolVal(bool(ok)),
+                                                note="without a resolver exactly one is built by RefResolver.from_schema(schema, id_of=<the class's id_of>)"))
+                tcw = at.get(("validator", "TYPE_CHECKER"))
+                warned = s.ghost.get("warned", ())
+                if types_given:
+                    ok = isinstance(tcw, ClassObj) and tcw.name == "derived_type_checker" and len(events) >= 1 and len(events[-1][1]) == 1 and events[-1][1][0] is types
+                    obls.append(core.Obligation(nm + ".instance-checker", "F", s.pc, z3.BoolVal(bool(ok)),
+                                                note="the instance's TYPE_CHECKER is the class's checker redefined with the legacy checks of `types` (a new checker; the class attribute is not assigned)"))
+                    obls.append(core.Obligation(nm + ".warning", "F", s.pc, z3.BoolVal(len(warned) == 1 and "DeprecationWarning" in warned[0]), note="exactly one DeprecationWarning"))
+                else:
+                    obls.append(core.Obligation(nm + ".no-checker-write", "W", s.pc, z3.BoolVal(tcw is None and not warned), note="without `types` no TYPE_CHECKER is assigned and nothing is warned"))
+                obls.append(core.Obligation(nm + ".class-untouched", "W", s.pc, z3.BoolVal(cls.attrs.get("TYPE_CHECKER") is cls_checker and set(cls.attrs) == {"TYPE_CHECKER"}),
+                                            note="the class's attributes are not assigned"))
+            self.finish(res, ctx, obls)
+
+
+DeriveTask._run_validator_init = _run_validator_init
+
+
 def derive_tasks(root, timeout_ms=10000):
-    return [DeriveTask(root, w, timeout_ms) for w in ("extend", "fc_init", "fc_checks")]
+    return [DeriveTask(root, w, timeout_ms) for w in ("extend", "fc_init", "fc_checks", "validator_init")]
